@@ -112,3 +112,7 @@ open Csproto
 #print axioms Csproto.C01.Source.source_roundtrip_int32
 #print axioms Csproto.Bridge.EncoderFuncs.EncodeMapEntryHeader_refines
 #print axioms Csproto.Bridge.EncoderFuncs.EncodeRaw_refines
+#print axioms Csproto.Bridge.EncoderFuncs.EncodeFixed32_ok
+#print axioms Csproto.Bridge.EncoderFuncs.EncodeFixed64_ok
+#print axioms Csproto.Bridge.EncoderFuncs.EncodeFixed32_refines
+#print axioms Csproto.Bridge.EncoderFuncs.EncodeFixed64_refines
